@@ -22,6 +22,9 @@
 (*        element members                                                   *)
 (*  "D32" xs:all is not read: neither as the whole content of a type nor    *)
 (*        inside an extension; the struct has none of its members           *)
+(*  "D35" only 27 of the builtins of XSD are in the table: token, NCName,    *)
+(*        ID, QName, gYear, anySimpleType ... become a path to a type that   *)
+(*        does not exist                                                    *)
 (*  "D23c" a user type whose local name is that of an XSD builtin (date,    *)
 (*        string, ...) is taken for the builtin                             *)
 (* With D = {} the walk is the repaired code.                               *)
@@ -31,8 +34,10 @@ EXTENDS Schema
 Par(min, max) == [min |-> min, max |-> max]
 
 \* as_rust_type: "D23c" = the builtin table is consulted by local name only, whatever the prefix says
+\* "D35": a builtin of XSD that the table does not know is taken for a user type that nobody defines
 BuiltTarget(S, f, it, ty, D) ==
-  IF "D23c" \in D /\ ty.k = "named" /\ ty.n \in Builtins THEN [k |-> "builtin", rust |-> Carrier(ty.n)]
+  IF "D35" \in D /\ ty.k = "builtin" /\ ty.n \in TextBuiltins THEN [k |-> "unresolved"]
+  ELSE IF "D23c" \in D /\ ty.k = "named" /\ ty.n \in Builtins THEN [k |-> "builtin", rust |-> Carrier(ty.n)]
   ELSE TargetOf(S, f, it, ty)
 
 \* Field::try_from_node for a local element p under a particle with occurrence par
